@@ -8,33 +8,62 @@
          --parseCommand (this is Parse on the pipeline's JSON and CommandStep.UnmarshalJSON)--> c'
          --verify (record read out of c'.signature, public key, env ⊇ pipeline env)--> ok.
 
-  Why it holds: the signed payload is a function of the step's normal form only (nil vs empty env /
-  plugins / matrix, short vs canonical plugin source, plugin configs as de-ordered maps), the round trip
-  preserves the normal form (C09) and the embedded signature record, and JCS makes the payload independent
-  of map order and number spelling (C14).
+  Why it holds: the signed payload is a function of what survives the round trip: the command, the env,
+  plugins and matrix pointer up to nil vs empty (`EmptyToNil*`), plugin sources up to canonicalisation
+  (`fullSource` is idempotent) and empty plugin configs as null (C09 normal form), and the marshalled matrix,
+  which comes back exactly (the C09 normal form is too coarse INSIDE the matrix, see the first section).
+  The embedded signature record comes back exactly, `verify` ignores the `signature` field, and C01
+  (`complete`) says the honest signature verifies.
 
   Side conditions: `StableCommand` as in C09 (findings F11, F14, disabled-cache shorthand, JStable
   content). Interpolating before signing, the YAML leg and real key material / JWS encoding are covered by
   the correspondence and the end-to-end oracle of the harness only (partial there).
 -/
 import GoPipeline.Lemmas.SignedRoundtrip
+import GoPipeline.Props.C01   -- `toyScheme` (non-vacuity example at the end)
 namespace GoPipeline.SignedRT
 open GoPipeline GoPipeline.Pipe GoPipeline.Parse GoPipeline.Marshal GoPipeline.Signing GoPipeline.Roundtrip
 
 variable (S : SigScheme)
 
-/-! ### The payload sees the normal form only -/
+/-! ### The payload sees the normal form only
+
+  Correction to the first draft of these two statements (which had `normCommand c' = normCommand c` as only
+  hypothesis): that version is FALSE.  `EmptyToNilMap/Slice/Ptr` normalise the outermost container of each
+  signed field only; inside the matrix the payload still distinguishes an empty non-nil container from nil
+  (`"setup":{}` vs `"setup":null`, a dimension `"os":[]` vs `"os":null`, an adjustment `"with":{}` vs
+  `"with":null`), whereas the C09 normal form `normMatrix` identifies them.  Counterexample (proved below):
+  two steps with command `x` and matrix `{adjustments: [{with: {a: b}}]}`, one with `setup: {}` (empty
+  non-nil `MatrixSetup`), one without `setup`.  The side condition `MatrixInnerNonEmpty`
+  (Model/SignedRoundtrip.lean) excludes exactly these three shapes.  It is NOT needed by the round-trip
+  theorems below: the JSON round trip returns these containers exactly (`matrix_roundtrip_sig`). -/
 
 /-- Two steps with the same normal form (nil vs empty containers, plugin sources canonicalised, empty
-    plugin configs as null) have the same value for every signed field. -/
+    plugin configs as null) and no empty non-nil container inside their matrices have the same value for
+    every signed field. -/
 theorem C02_signed_fields_see_normal_form_only (c c' : CommandStep) (repo f : String)
-    (h : normCommand c' = normCommand c) : fieldValue c' repo f = fieldValue c repo f :=
-  fieldValue_norm c c' repo f h
+    (h : normCommand c' = normCommand c) (ht : MatrixInnerNonEmpty c) (ht' : MatrixInnerNonEmpty c') :
+    fieldValue c' repo f = fieldValue c repo f :=
+  fieldValue_norm c c' repo f h ht ht'
 
 /-- …hence the same payload for the same field list and env, and the same verdict. -/
 theorem C02_verify_sees_normal_form_only (r : Record S) (pub : S.Pub) (c c' : CommandStep) (repo : String)
-    (env : List (String × String)) (h : normCommand c' = normCommand c) :
-    verify S r pub c' repo env = verify S r pub c repo env := verify_norm S r pub c c' repo env h
+    (env : List (String × String)) (h : normCommand c' = normCommand c)
+    (ht : MatrixInnerNonEmpty c) (ht' : MatrixInnerNonEmpty c') :
+    verify S r pub c' repo env = verify S r pub c repo env := verify_norm S r pub c c' repo env h ht ht'
+
+/-- The counterexample to the uncorrected statement: same normal form, different signed `matrix` value
+    (`{"adjustments":[{"with":{"a":"b"}}],"setup":{}}` vs `…,"setup":null}`). -/
+example :
+    let adj : Adjustment := { with_ := some [("a", "b")], skip := .null, rem := none }
+    let c : CommandStep := { (default : CommandStep) with
+      command := "x", matrix := some { setup := some [], adjustments := some [some adj], rem := none } }
+    let c' : CommandStep := { (default : CommandStep) with
+      command := "x", matrix := some { setup := none, adjustments := some [some adj], rem := none } }
+    normCommand c' = normCommand c ∧ fieldValue c' "r" "matrix" ≠ fieldValue c "r" "matrix" := by
+  refine ⟨rfl, ?_⟩
+  simp [fieldValue, matrixField, matrixIsEmpty, lenUMap, mMatrix, isSimple, inlineFriendly, mSetup, Marshal.umapOf,
+    Marshal.umapInsert]
 
 /-! ### One command step: parse, sign, marshal, re-parse, verify -/
 
@@ -76,5 +105,62 @@ theorem C02_signed_pipeline_verifies_after_roundtrip (render : S.Sig → String)
     ∃ j p' ws', mPipeline { p with steps := some signed } = .ok j ∧ parsePipeline (rereadJ j) = .ok (p', ws') ∧
       VerifiesAllList S parseSig (S.pubOf k) repo env₁ (p'.steps.getD []) :=
   signed_pipeline_roundtrip S render parseSig hrender v p ws hv hd h hs k alg repo env₁ henv signed hsign
+
+/-! ### Non-vacuity -/
+
+namespace Example
+
+/-- A signature of the toy scheme (key, message) as text: `xxx|message` with one `x` per unit of the key. -/
+def renderToy (s : toyScheme.Sig) : String := String.ofList (List.replicate s.1 'x' ++ '|' :: s.2)
+def parseToy (t : String) : Option toyScheme.Sig :=
+  some ((t.toList.takeWhile (· == 'x')).length, (t.toList.dropWhile (· == 'x')).drop 1)
+
+theorem parseToy_render (s : toyScheme.Sig) : parseToy (renderToy s) = some s := by
+  obtain ⟨n, cs⟩ := s
+  simp [parseToy, renderToy, String.toList_ofList]
+
+def mEx : Unm.Entries :=
+  [("key", .str "build"), ("command", .str "make test"),
+   ("plugins", .seq [.omap [("docker#v5.0.0", .omap [("image", .str "alpine")])], .str "ecr"]),
+   ("env", .omap [("FOO", .str "bar"), ("BAZ", .str "1")])]
+
+def cEx : CommandStep :=
+  { key := "build", label := "", command := "make test",
+    plugins := some [some { source := "docker#v5.0.0", config := .umap [("image", .str "alpine")] },
+                     some { source := "ecr", config := .null }],
+    env := some [("BAZ", "1"), ("FOO", "bar")], signature := none, matrix := none, cache := none, rem := none }
+
+theorem parse_mEx : parseCommand mEx = .ok cEx := by rfl
+
+theorem stable_cEx : StableCommand cEx := by
+  refine ⟨⟨fun _ => rfl, fun h => by simp [cEx] at h⟩, ?_, fun m h => by simp [cEx] at h, fun k h => by simp [cEx] at h, trivial⟩
+  intro l hl p hp
+  simp only [cEx, Option.some.injEq] at hl
+  subst hl
+  simp only [List.mem_cons, Option.some.injEq, List.not_mem_nil, or_false] at hp
+  rcases hp with rfl | rfl <;> simp [JStable, JStableKVs]
+
+def keyEx : toyScheme.Key := (7 : Nat)
+def penvEx : List (String × String) := [("CI", "true"), ("FOO", "shadowed")]
+def env1Ex : List (String × String) := [("HOME", "/root"), ("FOO", "shadowed"), ("CI", "true")]
+
+theorem envExtends_ex : EnvExtends penvEx env1Ex := by
+  refine ⟨by decide, by decide, ?_⟩
+  intro name v h
+  simp only [penvEx, List.mem_cons, Prod.mk.injEq, List.not_mem_nil, or_false] at h
+  rcases h with ⟨rfl, rfl⟩ | ⟨rfl, rfl⟩ <;> rfl
+
+/-- The hypotheses of `C02_signed_step_verifies_after_roundtrip` are jointly satisfiable on a non-trivial step
+    (two plugins, one with a short source and a config; two env variables, one of which shadows a pipeline
+    variable; a verification env with an extra variable), with the toy scheme of C01. -/
+example : ∃ kvs c', rereadJ (mCommand (attach toyScheme renderToy (sign toyScheme keyEx "toy-alg" cEx "git@example.com:acme/app.git" penvEx) cEx)) = .omap kvs ∧
+      parseCommand kvs = .ok c' ∧
+      c'.signature = (attach toyScheme renderToy (sign toyScheme keyEx "toy-alg" cEx "git@example.com:acme/app.git" penvEx) cEx).signature ∧
+      StepVerifies toyScheme parseToy (toyScheme.pubOf keyEx) "git@example.com:acme/app.git" env1Ex c' :=
+  C02_signed_step_verifies_after_roundtrip toyScheme renderToy parseToy parseToy_render mEx cEx
+    (by simp [mEx, NoUMapKVs, NoUMap, NoUMapList]) (by decide) parse_mEx stable_cEx keyEx "toy-alg"
+    "git@example.com:acme/app.git" penvEx env1Ex envExtends_ex
+
+end Example
 
 end GoPipeline.SignedRT
